@@ -1,5 +1,7 @@
 """C05 Deduplication answers are truthful."""
-from checks import sh_common
+import json
+
+from checks import sh_common, up_common
 
 
 def check(ctx):
@@ -13,8 +15,12 @@ def check(ctx):
                          need=("ShDedup:mem:found", "ShDedup:disk:found", "ShDedup:manager:found", "ShDedup:disk:none"))
     # dedup queries against the results of unions / differences as well
     sh_common.record(ctx, "setops", 10 * k, seed_off=50, need=("ShDedup:disk:found",))
+    # the answers the upload pipeline actually acts on, including the lookup in the file's own pending xorb
+    up_common.run_decisions(ctx, ["C05"])
     ctx.assumptions += sh_common.ASSUME
 
 
 def replay(ctx, path):
+    if "limits" in json.loads(open(path).readline()):      # an upload trace
+        return 0 if up_common.validate(ctx, path, "replay", ["C05"]) else 1
     return 0 if sh_common.validate(ctx, path, "replay") else 1
